@@ -8,7 +8,7 @@ def e1(text, note="Single goroutine histories; trusts the reference model (harne
     return dict(engine=E1, cat="exploration", technique="runtime monitoring: seeded histories executed on the real collection in lock-step with an executable reference model; full-state dump through the public API compared after every step", text=text, note=note)
 CHECKS = {
  "C01": dict(e1("Held on every dump of every seeded history: all cells of all live rows (16 column kinds, up to 3 blocks, 8 capacities, columns created over data) read back bit/byte-exact through Row readers, Txn readers and Row.Any; columns are dropped and re-created under the same name, transactions include filter-chain DeleteAll, the enum alphabet holds colliding pairs and probe chains."), ref="DESIGN.md 4/C01"),
- "C02": dict(e1("Held on every rolled-back transaction of the histories (full dump identical, nothing logged, twin collection hands out identical insert offsets), on every own-read inside a transaction and on every in-flight observation from a second goroutine (dump and snapshot+restore), except the recorded finding KF-INFLIGHT-INSERT; E3 phases: torn-row rounds (no reader callback sees half a commit) and snapshot loops beside tag writers (no restored row holds half a transaction)."), ref="DESIGN.md 4/C02"),
+ "C02": dict(e1("Held on every rolled-back transaction of the histories (full dump identical, nothing logged, twin collection hands out identical insert offsets), on every own-read inside a transaction and on every in-flight observation from a second goroutine (dump and snapshot+restore), except the recorded finding KF-INFLIGHT-INSERT; E3 phases: torn-row rounds (no reader callback sees half a commit) and snapshot loops beside tag writers (no restored row holds half a transaction); reserve rounds hold inserts open beside inserts that roll back and compare Count() with the rows visited."), ref="DESIGN.md 4/C02"),
  "C03": dict(e1("Held on every dump: With(index) and Row.Bool(index) equal the predicate evaluated over the values read through the typed readers, on primaries, stream replicas and restored collections, for indexes created before/after the data and dropped at random; an E3 phase builds indexes while six writers commit and compares every index bit with the predicate at quiescence.", note="Histories are single goroutine, the E3 phase is real parallelism; trusts the reference model and the generator's model boundaries (DESIGN.md 3.3)."), ref="DESIGN.md 4/C03"),
  "C04": dict(e1("Held on every generated filter chain and aggregate: Count/Range/Sum/Avg/Min/Max equal set algebra and direct aggregation over the dumped rows and values; columns are created over sparse multi-block data, indexes are compared with their predicates after every step, DeleteAll behind a chain deletes exactly the rows Range visits."), ref="DESIGN.md 4/C04"),
  "C05": dict(engine="E4 codec round-trip monitor", cat="exploration", ref="DESIGN.md 4/C05",
@@ -17,9 +17,9 @@ CHECKS = {
    note="Trusts the harness's own expectation builder (the generated list is the oracle). Offsets < 2^31, values <= 65535 bytes. SwapBool and different-length Swap on a Seek reader are outside what the library itself does and are not exercised."),
  "C06": dict(engine=E2+" + "+E1, cat="exploration", ref="DESIGN.md 4/C06",
    technique="runtime monitoring: controlled scheduling of real writers at instrumentation hooks (enumerated interleavings) + lock-step histories; replicas fed the real commit.Channel / commit.Log compared by full-state dump",
-   text="Held on every enumerated interleaving of the scripted multi-writer scenarios and on every seeded single-writer history: replicas fed the emitted commits (channel clone and serialized log) equal the primary at quiescence; histories run with other clients committing between the operations of a transaction; directed probes force a cross-block key take-over; marker commits of different blocks are overlapped (forced from a trigger callback and free-running) and Count() of primary and replica compared with the rows visited.",
+   text="Held on every enumerated interleaving of the scripted multi-writer scenarios and on every seeded single-writer history: replicas fed the emitted commits (channel clone and serialized log) equal the primary at quiescence; histories run with other clients committing between the operations of a transaction; directed probes force a cross-block key take-over; marker commits of different blocks are overlapped (forced from a trigger callback and free-running) and Count() of primary and replica compared with the rows visited; key take-over rounds (keys freed in block 0 by delete or re-key, taken over by rows of block 1) compare every key between primary and stream replica.",
    note="E2 parks tasks only at lock-free hook points; trusts the dump comparison and that emission order = order of Append calls."),
- "C07": dict(e1("Held on every snapshot->restore cycle of the histories: dump(restored) == dump(original) incl. indexes, sorted order, key lookups and counts, for same and different capacity, and the history continues on the restored collection under the value/live/key oracles; a sweep restores states of exactly 1 MiB + t uncompressed bytes for every t over the non-filler part, so the s2 block boundary (short read) falls on every byte of every field."), ref="DESIGN.md 4/C07"),
+ "C07": dict(e1("Held on every snapshot->restore cycle of the histories: dump(restored) == dump(original) incl. indexes, sorted order, key lookups and counts, for same and different capacity, and the history continues on the restored collection under the value/live/key oracles; a sweep restores states of exactly 1 MiB + t uncompressed bytes for every t over the non-filler part, so the s2 block boundary (short read) falls on every byte of every field; sources that grow into a new block while the snapshot is written restore whole."), ref="DESIGN.md 4/C07"),
  "C08": dict(engine=E2+" + "+E3, cat="exploration", ref="DESIGN.md 4/C08",
    technique="runtime monitoring: controlled scheduling of a real Snapshot beside real writers at the hooks of both protocols, and snapshot loops beside parallel writers; restored state checked per block against the fold of the recorded apply order (prefix-state oracle)",
    text="Held on every executed interleaving: each restored block equals a prefix state S_b[k] with k between the acknowledged-before-call and applied-before-return bounds; Snapshot never failed; only the recorded finding KF-INFLIGHT-INSERT was tolerated by exact signature.",
@@ -46,7 +46,7 @@ CHECKS = {
    technique="runtime monitoring: recording commit.Logger (invoked inside the block latch) under enumerated interleavings (with and without a snapshot in progress), parallel stream rounds with snapshots, and seeded histories; exactly-once / ordering / identity oracle over the recorded event log, also through the real commit.Channel",
    text="Held on every executed interleaving and history: one commit per changed block per committed transaction, none for rolled-back/no-op ones, IDs non-zero, distinct and increasing per block in arrival order; the channel delivers the same (ID, block) sequence; also with a logger that fails on every 2nd-4th append (after recording it).",
    note="E2 parks tasks only at lock-free hook points."),
- "C16": dict(e1("Held on every dump and every filtered Ascend: the callback sequence is a permutation of the selected rows holding a value, in non-decreasing order of the values read at the callbacks (6-string alphabet forcing duplicates)."), ref="DESIGN.md 4/C16"),
+ "C16": dict(e1("Held on every dump and every filtered Ascend: the callback sequence is a permutation of the selected rows holding a value, in non-decreasing order of the values read at the callbacks (6-string alphabet forcing duplicates); sorted indexes created while six writers commit are checked at quiescence."), ref="DESIGN.md 4/C16"),
  "C17": dict(engine="E7 TTL monitor", cat="exploration", ref="DESIGN.md 4/C17",
    technique="runtime monitoring of the real cleanup goroutine (1/5/20 ms intervals) beside writers: clock-free safety oracle for rows that must live, liveness bounded in vacuum passes counted at a hook, exact deadline comparison after restore/replay; block-boundary phase with an insert held open in a new block and the overlapping cleanup commit held at a hook until the insert committed",
    text="Held on every observation of every case: rows without TTL or with far deadlines were always present, short-lived rows were never removed ahead of their deadline and were gone within 5 passes that started after it, deadlines were stored exactly and survived snapshot/restore and stream replay (replica fed progressively and compared after each of 150 groups of four concurrent extensions per case); a row inserted as the first of a new block beside the cleanup stayed.",
